@@ -108,6 +108,56 @@ def asan_stage(c):
         c["notes"].append({"t": "note", "kind": "SANITIZER-NOTE", "text": "ASan: " + out[-1500:]})
 
 
+def python_binding_stage(c):
+    """Thorough only: build the Python extension from /repo, push programs through its serialisation entry points and
+    to_sql. A module that cannot be built or imported marks the stage skipped (never a violation)."""
+    import os, time, shutil, subprocess, json
+    if c["tier"] != "thorough":
+        return
+    t0 = time.time()
+    tdir = os.path.join(c["root"], "harness", "target-py")
+    rc, out = _run(["cargo", "build", "--offline", "--quiet", "-p", "rscel_python", "--target-dir", tdir], "/repo", {}, 1800)
+    so = os.path.join(tdir, "debug", "librscel.so")
+    rec = {"built": rc == 0 and os.path.exists(so)}
+    if not rec["built"]:
+        rec["skipped_reason"] = out[-400:]
+        c["extra_cov"]["python_binding"] = rec
+        return
+    moddir = os.path.join(c["wdir"], "pymod")
+    os.makedirs(moddir, exist_ok=True)
+    shutil.copy(so, os.path.join(moddir, "rscel.so"))
+    worker = list(c["builds"].values())[0]
+    try:
+        srcs = subprocess.run([worker, "sources", "2000", str(c["seed"])], stdout=subprocess.PIPE, text=True, timeout=600).stdout
+        p = subprocess.run(["python3", os.path.join(c["root"], "py", "binding_stage.py")], input=srcs, stdout=subprocess.PIPE, stderr=subprocess.PIPE,
+                           text=True, timeout=1200, env=dict(os.environ, PYTHONPATH=moddir))
+    except Exception as e:
+        rec["skipped_reason"] = str(e)[:300]
+        c["extra_cov"]["python_binding"] = rec
+        return
+    line = [l for l in p.stdout.splitlines() if l.startswith("BINDING ")]
+    if not line:
+        rec["skipped_reason"] = (p.stderr or p.stdout)[-400:]
+        c["extra_cov"]["python_binding"] = rec
+        return
+    res = json.loads(line[0][8:])
+    rec.update({k: v for k, v in res.items() if k != "violations"})
+    rec["wall_s"] = round(time.time() - t0, 1)
+    c["extra_cov"]["python_binding"] = rec
+    c["counters"]["python_binding_programs"] = res["programs"]
+    for v in res["violations"]:
+        # only the part this property owns
+        if c["prop"] == "C20" and "to_sql" not in v["sig"]:
+            continue
+        if c["prop"] == "C19" and "to_sql" in v["sig"]:
+            continue
+        sig = v["sig"]
+        c["viol_counts"][sig] = c["viol_counts"].get(sig, 0) + 1
+        if sig not in c["viols"]:
+            c["viols"][sig] = {"sig": sig, "detail": "python binding: `%s`: %s" % (v["source"][:200], v["detail"]), "stage": "0:python-binding", "idx": 0,
+                               "case": {"source": v["source"]}}
+
+
 def maporder_across_processes(c):
     """every worker evaluates the same battery of map literals; the key order must not depend on the process"""
     seen = {}
@@ -126,6 +176,7 @@ def maporder_across_processes(c):
 CONFIG = {
     "C20": {
         "profiles": BOTH,
+        "post": [python_binding_stage],
         "rule": "one evaluation = one CEL source translated (and its SQL re-parsed); distinct non-trivial = distinct sources with an operator or call, or containing a string literal",
         "floors": {"quick": {"_evaluations": 150000, "translations": 100000, "string_literal_cases": 30000, "unsupported_cases": 5},
                    "thorough": {"_evaluations": 1500000}},
@@ -144,6 +195,7 @@ CONFIG = {
     },
     "C19": {
         "profiles": BOTH,
+        "post": [python_binding_stage],
         "rule": "one evaluation = one compile, or one execution of an original / revived program; distinct non-trivial = distinct sources whose bytecode has more than one "
                 "instruction or whose constant is not a plain integer",
         "floors": {"quick": {"_evaluations": 300000, "roundtrips/json": 50000, "roundtrips/bincode": 50000,
